@@ -369,4 +369,259 @@ theorem delMd_collapse (ks : List String) (mds : List Md) :
           exact hin (hall e he k0 (by rw [← hd]; simp))
     rw [if_pos hc]
 
+
+/-! ## MetadataMap.from_file -/
+
+/-- **fromFile_relation** — for every file of the row grammar (`fileOk`: clean header names; `#`
+    lines after the header are comments; blank lines; data rows of any length whose fields carry no
+    tab and no quote inside, with blanks and quotes around them; non-empty ID not starting with `#`;
+    last written field non-empty unless blanks are kept), under each of the four stripping modes,
+    with or without a header override, and for EVERY per-column conversion: the loop over the
+    rendered lines yields exactly the relation of the rows — or the refusal (no data rows,
+    duplicated first column) the relation prescribes. -/
+theorem fromFile_relation {β : Type} (o : Opts) (hdr0 : List Str) (conv : Str → Str → β) (f : List GLine)
+    (h : fileOk o hdr0 f = true) :
+    fromFileC o hdr0 conv (f.map GLine.render) = relOf o hdr0 conv f := by
+  obtain ⟨hfold, hne⟩ := foldl_file o hdr0 f h
+  unfold fromFileC relOf
+  simp only [hfold]
+  have : (fileHeader hdr0 f).isEmpty = false := by
+    cases hh : fileHeader hdr0 f with
+    | nil => exact absurd hh hne
+    | cons _ _ => rfl
+  simp only [this, Bool.false_eq_true, if_false]
+
+/-- the same for a `process_fns` dict with the `except KeyError` default -/
+theorem fromFile_relation_proc {β : Type} (o : Opts) (hdr0 : List Str) (proc : List (Str × (Str → β)))
+    (dflt : Str → β) (f : List GLine) (h : fileOk o hdr0 f = true) :
+    fromFile o hdr0 proc dflt (f.map GLine.render) = relOf o hdr0 (convOf proc dflt) f :=
+  fromFile_relation o hdr0 (convOf proc dflt) f h
+
+/-! ## the options of the command -/
+
+theorem dgetLast_map_const {β : Type} (ks : List Str) (f : β) (k : Str) :
+    dgetLast (ks.map (fun k => (k, f))) k = if k ∈ ks then some f else none := by
+  induction ks with
+  | nil => rfl
+  | cons k0 r ih =>
+    simp only [List.map_cons, dgetLast, ih, List.mem_cons]
+    by_cases h1 : k ∈ r
+    · simp [h1]
+    · by_cases h2 : k0 = k
+      · simp [h1, h2]
+      · have : ¬ k = k0 := fun e => h2 e.symm
+        simp [h1, h2, this]
+
+theorem dget_procUpdate (p : Proc) (fields : Option (List Str)) (f : Str → Val) (k : Str) :
+    dget (procUpdate p fields f) k = if (fields.getD []).contains k then some f else dget p k := by
+  cases fields with
+  | none => simp [procUpdate]
+  | some ks =>
+    simp only [procUpdate, dget_dictUpdate, dgetLast_map_const, Option.getD_some, List.contains_iff_mem]
+    by_cases h : k ∈ ks <;> simp [h]
+
+/-- **procOf_priority** — the `process_fns` dict the command builds treats a column named under several
+    options as: float over int over pipe-separated over semicolon-separated; any other column is kept
+    as text. -/
+theorem procOf_priority (c : CliOpts) (k v : Str) : convOf (procOf c) convIdent k v = convOfOpts c k v := by
+  unfold convOf procOf convOfOpts
+  simp only [dget_procUpdate, dget, List.contains_iff_mem]
+  by_cases h1 : k ∈ c.floats.getD []
+  · simp [h1]
+  · by_cases h2 : k ∈ c.ints.getD []
+    · simp [h1, h2]
+    · by_cases h3 : k ∈ c.pipe.getD []
+      · simp [h1, h2, h3]
+      · by_cases h4 : k ∈ c.sc.getD []
+        · simp [h1, h2, h3, h4]
+        · simp [h1, h2, h3, h4]
+
+/-! ## model_holds -/
+
+theorem dget_self_of_nodup {κ β : Type} [DecidableEq κ] (x : List (κ × β)) (k : κ) (v : β)
+    (hn : (dkeys x).Nodup) (hm : (k, v) ∈ x) : dget x k = some v := by
+  induction x with
+  | nil => cases hm
+  | cons kv r ih =>
+    obtain ⟨k0, v0⟩ := kv
+    simp only [dkeys, List.map_cons, List.nodup_cons] at hn
+    rcases List.mem_cons.mp hm with h | h
+    · cases h; simp [dget]
+    · have hk : k ∈ dkeys r := List.mem_map_of_mem (f := Prod.fst) h
+      have : ¬ k0 = k := fun e => hn.1 (e ▸ hk)
+      simp only [dget, this, if_false]
+      exact ih hn.2 h
+
+theorem entryMatches_self (e : List (Str × String)) : entryMatches e e = true := by
+  simp [entryMatches]
+
+theorem mappingMatches_self (x : List (Str × List (Str × String))) (hn : (dkeys x).Nodup) :
+    mappingMatches x x = true := by
+  simp only [mappingMatches, beq_self_eq_true, Bool.true_and, Bool.and_eq_true, List.all_eq_true]
+  constructor
+  · intro ie hie
+    rw [dget_self_of_nodup x ie.1 ie.2 hn hie]
+    exact entryMatches_self _
+  · intro ie hie
+    rw [dget_self_of_nodup x ie.1 ie.2 hn hie]; rfl
+
+theorem dkeys_textMapping (m : Mapping Val) : dkeys (textMapping m) = dkeys m := by
+  simp [dkeys, textMapping]
+
+theorem relOf_ok_nodup {β : Type} (o : Opts) (hdr0 : List Str) (conv : Str → Str → β) (f : List GLine)
+    (m : Mapping β) (h : relOf o hdr0 conv f = .ok m) : (dkeys m).Nodup := by
+  unfold relOf at h
+  simp only at h
+  split at h
+  · cases h
+  · split at h
+    · cases h
+    · rename_i hnd
+      cases h
+      simp only [dkeys, List.map_map]
+      simpa [Function.comp_def] using hnd
+
+theorem parseHolds_relOf (o : Opts) (hdr0 : List Str) (conv : Str → Str → Val) (f : List GLine) :
+    parseHolds (relOf o hdr0 conv f) ((relOf o hdr0 conv f).map textMapping) = true := by
+  cases hr : relOf o hdr0 conv f with
+  | error e => rfl
+  | ok m =>
+    simp only [parseHolds, Except.map]
+    apply mappingMatches_self
+    rw [dkeys_textMapping]
+    exact relOf_ok_nodup o hdr0 conv f m hr
+
+/-- explicit, decidable hypotheses of `model_holds` -/
+def inputWF : Input α → Bool
+  | .add t m ax => addWF t m ax && decide (t.md ax.other ≠ some [])
+  | .del t _ _ => mdShape t .obs && mdShape t .samp
+  | .parse o hdr0 _ f => fileOk o hdr0 f
+
+/-- **model_holds** — the declarative predicate is true of what the model computes, for every update,
+    every deletion and every file of the grammar. -/
+theorem model_holds [DecidableEq α] (i : Input α) (h : inputWF i = true) : holds i (model i) = true := by
+  cases i with
+  | add t m ax =>
+    simp only [inputWF, Bool.and_eq_true, decide_eq_true_eq] at h
+    exact addMd_holds t m ax h.1 h.2
+  | del t keys arg =>
+    simp only [inputWF] at h
+    by_cases hb : arg = .bad
+    · subst hb
+      simp only [holds, model, delMd_bad_axis]
+      rfl
+    · simp only [holds, model, delMetadata_ok t keys arg hb]
+      have := delMd_holds t keys arg hb h
+      unfold delResult at this
+      simp [this, hb]
+  | parse o hdr0 proc f =>
+    simp only [inputWF] at h
+    simp only [holds, model, fromFile_relation_proc o hdr0 proc convIdent f h]
+    exact parseHolds_relOf o hdr0 _ f
+
+/-! ## the command -/
+
+/-- the relation of an optional mapping file under the conversions the options select -/
+def relOpt (hdr : List Str) (c : CliOpts) : Option (List GLine) → Except Err (Option (Mapping Val))
+  | some f => (relOf {} hdr (convOfOpts c) f).map some
+  | none => .ok none
+
+def addOpt (t : Table α) (m : Option (Mapping Val)) (ax : Axis) : Table α :=
+  match m with
+  | some m => addMetadata t (toMdMapping m) ax
+  | none => t
+
+/-- what the command is to do with two optional files of the grammar -/
+def cliSpec (t : Table α) (sf of' : Option (List GLine)) (c : CliOpts) : Except Err (Table α) :=
+  if sf.isNone && of'.isNone then .error .value
+  else (relOpt (c.sampleHeader.getD []) c sf).bind (fun sm =>
+       (relOpt (c.obsHeader.getD []) c of').bind (fun om =>
+       .ok (addOpt (addOpt t sm .samp) om .obs)))
+
+/-- **cli_parses_then_adds** — `_add_metadata` on files of the grammar: refuse when no file is given
+    or a file has no usable relation; otherwise hand the relation of each file (with the conversions
+    the options select: `procOf_priority`) to `add_metadata`, samples first. -/
+theorem cli_parses_then_adds (t : Table α) (sf of' : Option (List GLine)) (c : CliOpts)
+    (hs : ∀ f, sf = some f → fileOk {} (c.sampleHeader.getD []) f = true)
+    (ho : ∀ f, of' = some f → fileOk {} (c.obsHeader.getD []) f = true) :
+    addMetadataCli t (sf.map (·.map GLine.render)) (of'.map (·.map GLine.render)) c = cliSpec t sf of' c := by
+  have hconv : convOf (procOf c) convIdent = convOfOpts c := by
+    funext k v; exact procOf_priority c k v
+  unfold addMetadataCli cliSpec relOpt
+  cases sf with
+  | none =>
+    cases of' with
+    | none => rfl
+    | some g =>
+      simp only [Option.map_some, Option.map_none, Option.isNone_none, Option.isNone_some, Bool.and_false,
+        Bool.false_eq_true, if_false]
+      rw [fromFile_relation_proc _ _ _ _ g (ho g rfl), hconv]
+      cases relOf {} (c.obsHeader.getD []) (convOfOpts c) g <;> rfl
+  | some f =>
+    cases of' with
+    | none =>
+      simp only [Option.map_some, Option.map_none, Option.isNone_none, Option.isNone_some, Bool.false_and,
+        Bool.false_eq_true, if_false]
+      rw [fromFile_relation_proc _ _ _ _ f (hs f rfl), hconv]
+      cases relOf {} (c.sampleHeader.getD []) (convOfOpts c) f <;> rfl
+    | some g =>
+      simp only [Option.map_some, Option.isNone_some, Bool.false_and, Bool.false_eq_true, if_false]
+      rw [fromFile_relation_proc _ _ _ _ f (hs f rfl), fromFile_relation_proc _ _ _ _ g (ho g rfl), hconv]
+      cases relOf {} (c.sampleHeader.getD []) (convOfOpts c) f <;>
+        cases relOf {} (c.obsHeader.getD []) (convOfOpts c) g <;> rfl
+
+/-! ## non-vacuity: the hypotheses are met by concrete, non-trivial inputs -/
+
+section Examples
+
+def exTable : Table Nat :=
+  { obs := ["O1", "O2"], samp := ["S1", "S2", "S3"], rows := [[0, 1, 2], [3, 4, 5]],
+    omd := some [[("taxonomy", "[\"k__A\"]")], [("taxonomy", "[\"k__B\"]")]],
+    smd := some [[("barcode", "\"AT\""), ("env", "\"A\"")], [("barcode", "\"GG\""), ("env", "\"B\"")],
+                 [("barcode", "\"CC\""), ("env", "\"A\"")]] }
+
+def exMapping : List (Id × Md) := [("S2", [("env", "\"Z\""), ("pH", "7")]), ("nope", [("env", "\"Q\"")])]
+
+example : inputWF (.add exTable exMapping .samp) = true := by decide
+-- overwritten, added, kept, untouched ID, unknown ID ignored
+example : keyOf (addMetadata exTable exMapping .samp) .samp "S2" "env" = some "\"Z\"" := by decide
+example : keyOf (addMetadata exTable exMapping .samp) .samp "S2" "pH" = some "7" := by decide
+example : keyOf (addMetadata exTable exMapping .samp) .samp "S2" "barcode" = some "\"GG\"" := by decide
+example : keyOf (addMetadata exTable exMapping .samp) .samp "S1" "env" = some "\"A\"" := by decide
+example : keyOf (addMetadata exTable exMapping .samp) .samp "nope" "env" = none := by decide
+example : (addMetadata exTable exMapping .samp).samp = ["S1", "S2", "S3"] := by decide
+-- an axis without metadata: IDs the mapping does not name get an empty entry
+example : (addMetadata { exTable with smd := none } exMapping .samp).smd =
+    some [[], [("env", "\"Z\""), ("pH", "7")], []] := by decide
+example : (addMetadata { exTable with smd := none } [("nope", [("env", "\"Q\"")])] .samp).smd = none := by decide
+
+example : inputWF (.del exTable (some ["env"]) .whole) = true := by decide
+example : (delMetadata exTable (some ["env", "barcode"]) .sample).toOption.map (·.smd) = some none := by decide
+example : (delMetadata exTable (some ["env"]) .whole).toOption.map (fun t => (keyOf t .samp "S1" "env",
+    keyOf t .samp "S1" "barcode", keyOf t .obs "O1" "taxonomy")) = some (none, some "\"AT\"", some "[\"k__A\"]") := by
+  decide
+example : delMetadata exTable none .bad = .error .unknownAxis := by decide
+
+/-- `#ID⇥A⇥B`, a comment, a blank line, a quoted and padded row, a short row -/
+def exFile : List GLine :=
+  [.blank [' ', '\n'],
+   .header [['I', 'D'], ['A'], ['B']] ['\n'],
+   .comment ['#', ' ', 'n', 'o', 't', 'e', '\n'],
+   .row [⟨[], false, ['S', '1'], []⟩, ⟨[' '], true, ['1', '_', '0'], [' ']⟩, ⟨[], false, ['x', ';', 'y'], ['\n']⟩],
+   .blank ['\n'],
+   .row [⟨[], true, ['S', '2'], [' ']⟩, ⟨[], false, ['q'], ['\n']⟩]]
+
+def exProc : Proc := [(['A'], convInt), (['B'], convSc)]
+
+example : inputWF (α := Nat) (.parse {} [] exProc exFile) = true := by decide
+example : fileOk { stripQuotes := false, suppress := true } [['I', 'D'], ['K']] exFile = false := by decide
+example : (fromFile {} [] exProc convIdent (exFile.map GLine.render)).toOption =
+    some [(['S', '1'], [(['A'], Val.int 10), (['B'], Val.list [['x'], ['y']])]),
+          (['S', '2'], [(['A'], Val.str ['q']), (['B'], Val.list [[]])])] := by decide
+-- header override selecting the first column only (the file's own header line is then a comment)
+example : fileOk {} [['I', 'D'], ['K']] (exFile.map (fun l => match l with
+    | .header n t => .comment (GLine.render (.header n t)) | l => l)) = true := by decide
+
+end Examples
+
 end Biom.C18
